@@ -6,7 +6,7 @@ func ruleC10(prog *Program, rep *Report) {
 	rep.Explain("C10 decides the table-agreement clauses of the SEN round trip: the writer's quoting/escaping decision per byte (interpreted from ojg.AppendSENString with its table as a constant) against the reader's start, token, string, escape and decode tables (roles identified from the sen.Parser dispatch loop), and the reserved spellings. Not covered: whole-tree equality, number text, time options.")
 	ruleSENStringWriter(prog, rep)
 	ruleEscapeDecode(prog, rep, "sen") // what the writer escapes must decode to the same byte
-	ruleTail(prog, rep, 6, "sen") // the SEN emitters close containers by overwriting the last separator
+	ruleTail(prog, rep, 6, "sen")      // the SEN emitters close containers by overwriting the last separator
 	rulePoolPut(prog, rep, "sen.Writer", "sen.Parser")
 	ruleEntryParity(prog, rep, "sen.Writer", "sen.Parser")
 	rep.Rules = append(rep.Rules, "A-stale (SEN): sen.Parser and sen.Tokenizer, explored alone, never read control state left by a previous call and never append to a scratch buffer whose content was consumed (a string would come back with a stale prefix)")
